@@ -7,12 +7,14 @@ mode 'L'  every source line of the library's concurrency code is a scheduling po
           iterative preemption bound.
 """
 import collections
+import gc
 import json
 
 from vf import common
 from vf import sched as S
 
 _INSTALLED = False
+_GC = {'n': 0}
 
 
 def ensure_installed():
@@ -306,7 +308,9 @@ class Harness:
                         if consumer[0] == 'close':
                             it.close()
                         elif consumer[0] == 'drop':
+                            # garbage collection of the abandoned iterator, at a definite moment
                             del it
+                            gc.collect()
                         else:
                             raise ValueError(consumer)
             except S.Abort:
@@ -369,9 +373,16 @@ def run_one(cfg, prefix, mode='P', sleep_after=None):
         sch = S.Sched(horizon=cfg.get('horizon', S.HORIZON), forced=prefix, sleep_after=sleep_after)
     else:
         sch = S.Sched(prefix, use_sleep=(mode == 'P'), horizon=cfg.get('horizon', S.HORIZON))
+    # the cyclic garbage collector runs finalisers at arbitrary allocation points: it is switched off while an
+    # execution is explored (the 'drop' consumer collects explicitly) and the young generations are collected
+    # between executions
+    gc.disable()
     sch.sync_events = frozenset(cfg.get('sync_events', ()))
     sch.log_points = frozenset(cfg.get('log_points', ()))
     sch.run(h.main)
+    h.ds = None
+    _GC['n'] += 1
+    gc.collect(1 if _GC['n'] % 100 else 2)
     ex = Execution()
     ex.points, ex.log, ex.trace, ex.error, ex.pruned = sch.points, sch.log, sch.trace, sch.error, sch.pruned
     ex.choices = [p[1] for p in sch.points] if mode != 'D' else [r[1] for r in sch.steps_rec]
